@@ -109,7 +109,10 @@ def table_cases(tier):
     keys = st.one_of(
         st.text(st.characters(min_codepoint=0x61, max_codepoint=0x7a), min_size=1,
                 max_size=3),
-        S.table_keys())
+        S.table_keys(),
+        # over-long keys are truncated on the wire (documented); encoding must still be
+        # deterministic, order-independent and must not touch the dict
+        st.sampled_from(['L' * 129, 'L' * 128 + 'b', 'L' * 127 + 'zz', 'M' * 200]))
     value = st.recursive(
         st.one_of(st.integers(-5, 300), st.booleans(), S.texts(4), st.none(),
                   st.binary(max_size=3).map(bytearray), S.table_decimals(),
